@@ -63,6 +63,7 @@ type scenario struct {
 	TS       time.Time
 	ViaVerb  bool
 	DateFlag bool
+	Recolour int // 0: no; otherwise SetLevelColors(severity, ...) with one of a few fg/bg pairs before logging
 }
 
 func here() uintptr {
@@ -116,6 +117,11 @@ func run(t vlib.TB, test string, sc scenario, thruAttrs slog.Attrs, args []any) 
 		layout = "2006-01-02T15:04:05.000000Z07:00"
 	}
 	slog.SetFlags(flags)
+	if sc.Recolour > 0 {
+		pairs := [][2]color.Color{{color.FgRed, color.BgBoldOrBright}, {color.FgLightGreen, color.NoColor}, {color.FgWhite, color.BgUnderline}, {color.FgDefault, color.BgDim}}
+		pr := pairs[(sc.Recolour-1)%len(pairs)]
+		slog.SetLevelColors(sc.Sev, pr[0], pr[1]) // the colour table is restored by the verif hook (Canon)
+	}
 	slog.SetLevelOutputWidth(sc.TagW)
 	slog.SetMessageMinimalWidth(sc.MsgW)
 	log := vlib.NewEventLog()
@@ -316,6 +322,10 @@ func run(t vlib.TB, test string, sc scenario, thruAttrs slog.Attrs, args []any) 
 	case custTagged:
 		set["custom-level-with-tags"] = true
 	}
+	if sc.Recolour > 0 {
+		set["level-colours-changed"] = true
+		nt = true
+	}
 	if sc.TagW != 3 || sc.MsgW != 36 {
 		set["non-default-widths"] = true
 		nt = true
@@ -431,6 +441,7 @@ func genScenario(t *rapid.T) (scenario, slog.Attrs, []any) {
 	sc.Caller = rapid.Bool().Draw(t, "caller")
 	sc.Named = rapid.Bool().Draw(t, "named")
 	sc.DateFlag = rapid.IntRange(0, 3).Draw(t, "dateflag") == 0
+	sc.Recolour = rapid.SampledFrom([]int{0, 0, 0, 1, 2, 3, 4}).Draw(t, "recolour")
 	sc.TS = vlib.GenTime().Draw(t, "ts")
 	sc.ViaVerb = rapid.IntRange(0, 3).Draw(t, "viaVerb") == 0
 	g := vlib.AttrGen{Keys: genKey(), MaxDepth: 3, MaxLen: 5, UniqueKeys: true}
